@@ -91,6 +91,26 @@ Proof.
     destruct Hpos as [Hpos|Hpos]; [|destruct Hnz; [|congruence]]; lia.
 Qed.
 
+(* ... and with the reserve MultiExecMatcher keeps, whatever file name (within PATH_MAX) the command is found under and
+   whatever "#!" line (within 256 bytes) it starts with *)
+Theorem find_batch_accepted rl env prog fixed batch fn sb :
+  argmax_args batch <= find_budget (kernel_limit rl) env prog fixed ->
+  batch <> [] ->
+  Forall (fun len => len <= argmax_single) (prog :: fixed ++ batch) ->
+  Forall (fun len => len + 1 <= MAX_ARG_STRLEN) (env_strings env) ->
+  fn + 1 <= 4096 -> sb <= 4096 + 256 ->
+  kernel_accepts rl {| argv := prog :: fixed ++ batch; envp := env_strings env; fname := fn; shebang := sb |}.
+Proof.
+  intros Hb Hne Hs He Hf Hsb. split; cbn [argv envp fname shebang].
+  - apply Forall_app. split; [|exact He]. eapply Forall_impl; [|exact Hs]. intros l Hl. unfold argmax_single in Hl. unfold MAX_ARG_STRLEN. lia.
+  - unfold find_budget, find_reserve, argmax_budget in *. rewrite !argmax_args_spec in *. rewrite argmax_env_spec in *. unfold argmax_arg in *.
+    cbn [strings fold_right length]. fold (strings (fixed ++ batch)). rewrite strings_app, app_length.
+    unfold env_strings in *. rewrite map_length in *.
+    assert (Hnz : 0 < strings batch + 8 * N.of_nat (length batch)).
+    { destruct batch; [congruence|]. cbn [length]. lia. }
+    lia.
+Qed.
+
 Lemma ones_cost n : fold_right (fun len s => len + 1 + s) 0 (repeat 1 n) = 2 * N.of_nat n /\ strings (repeat 1 n) = 2 * N.of_nat n.
 Proof.
   induction n as [|n [IH1 IH2]]; [split; reflexivity|].
